@@ -44,7 +44,7 @@ fn child_poll(id: u32, addr: usize, cx: &mut Context<'_>, stream: bool) -> (Stri
             }
         };
         let key = w.key_of(cx.waker().data() as usize);
-        (step, w.addr_id(addr), key, over, w.stash.contains_key(&id))
+        (step, w.addr_id(addr), key, over, w.nokeep || w.stash.contains_key(&id))
     });
     ev(format!(r#"{{"e":"cin","c":{},"key":{},"addr":{}}}"#, id, key, addr_id));
     if !have {
